@@ -223,6 +223,7 @@ var specialKinds = []string{
 	"include-root", "empty-included-file", "empty-included-in-explicit-context", "paste-in-macro-chain", "nul-bytes", "invalid-utf8",
 	"truncated-directive", "cr-only", "unclosed-quote", "deep-include-chain", "only-jsight", "bom", "include-no-parameter",
 	"paren-in-included", "include-dir", "keyword-at-eof", "macro-cycle-via-include",
+	"include-fifo", "nested-include-fifo", "root-fifo",
 }
 
 func genSpecial(r *Rand, kind string) *Project {
@@ -317,6 +318,16 @@ func genSpecial(r *Rand, kind string) *Project {
 	case "include-dir":
 		file("root.jst", "JSIGHT 0.3\nINCLUDE d\n")
 		file("d/", "")
+	case "include-fifo":
+		// the INCLUDE target exists and is not a directory - and not a regular file either
+		file("root.jst", "JSIGHT 0.3\nGET /a\n  200 any\nINCLUDE pipe.jst\n")
+		p.Files = append(p.Files, GenFile{Path: "pipe.jst", Special: "fifo"})
+	case "nested-include-fifo":
+		file("root.jst", "JSIGHT 0.3\nINCLUDE d/in.jst\n")
+		file("d/in.jst", "TAG @t\nINCLUDE e/pipe.jst\n")
+		p.Files = append(p.Files, GenFile{Path: "d/e/pipe.jst", Special: "fifo"})
+	case "root-fifo":
+		p.Files = append(p.Files, GenFile{Path: "root.jst", Special: "fifo"})
 	case "keyword-at-eof":
 		kws := []string{"GET", "URL", "TYPE", "ENUM", "MACRO", "PASTE", "INCLUDE", "INFO", "SERVER", "TAG", "Request", "200", "Path", "Query", "Body", "Headers", "Description", "Protocol", "Method", "Params", "Result", "Tags", "OperationId", "Title", "Version", "BaseUrl"}
 		file("root.jst", "JSIGHT 0.3\n"+kws[r.Intn(len(kws))])
